@@ -273,7 +273,7 @@ def operand_pool_fixed(t):
     def q(base, query):
         return base + ",q:" + common.hx(query)
     return [
-        ("i:5:dec:0", "const"), ("u:1:bool:0", "bool"), ("s:616263:0", "str"), (q("", "[1, 2]"), "seq"), (q("", "{1}"), "closure"),
+        ("i:5:dec:0", "const"), ("i:5:dec:1", "const@1"), ("s:6162:2", "str@2"), ("s:61:0,u:7:hex:3", "str,const@3"), ("u:1:bool:0", "bool"), ("s:616263:0", "str"), (q("", "[1, 2]"), "seq"), (q("", "{1}"), "closure"),
         (f, "dwarf"), (q(f, "unit"), "cu"), (q(f, "entry ?TAG_subprogram"), "die"), (q(fr, "entry ?TAG_subprogram"), "die-raw"),
         (q(f, "entry attribute"), "attr"), (q(f, "entry ?AT_decl_line attribute ?AT_decl_line"), "attr-decl_line"),
         (q(fl, "entry @AT_location"), "loclist_elem"), (q(fl, "entry @AT_location elem"), "loclist_op"),
@@ -315,6 +315,8 @@ def run(chk):
     for w in missing:
         chk.violation("assertion-word-without-twin:" + w, dict(word=w))
     aw = [w for w in aw if w not in missing]
+    # the position assertions ?N / !N are not vocabulary words: both flavours of several N, on operands at positions 0, 1, 2
+    aw += ["0", "1", "2", "3", "17"]
     ops = operand_pool()
     wjobs = []
     step = 40
